@@ -208,6 +208,25 @@ def range_rule(ctx):
             ctx.ob('RANGE', '%s/varint#%d<%s>' % (fn_label(b), ordn, ty), ok, short_loc(t.get('span')),
                    'value written derives from %s -> %s' % (o.describe(), why or 'NOT range-checked (need TryInto+?, a lookup discriminant or a constant)'))
     ctx.floor('RANGE', 'write_varint sites in ser::', n, 14)
+    # a failed narrowing of the value being serialized must reach Err: replacing it by a default (saturation) hands a
+    # different number to whichever branch has no range check of its own (decimals, big-decimal).  Saturating a *bound*
+    # taken from the schema (symbol count) is fine: only conversions of values deriving from a non-self parameter count
+    sat = 0
+    for b in ser_bodies(f):
+        for bb, t in b.calls():
+            cn = strip_generics(cname(t))
+            if not cn.endswith(('Result::unwrap_or', 'Result::unwrap_or_else', 'Result::unwrap_or_default', 'Option::unwrap_or',
+                                'Option::unwrap_or_else', 'Option::unwrap_or_default')) or not t.get('args'):
+                continue
+            o = origin(b, t['args'][0])
+            if not ({'try_into', 'try_from'} & set(o.flags)):
+                continue
+            first_value_param = 1 if b.j['kind'] == 'closure' or not b.j.get('impl') else 2
+            if any(p >= first_value_param for p in o.params()) or 'upvar' in o.flags:
+                sat += 1
+                ctx.ob('RANGE', '%s/saturating-conversion#%d' % (fn_label(b), sat), False, short_loc(t.get('span')),
+                       'the fallible conversion of a value deriving from %s is replaced by a default when it fails (%s): an out-of-range value must reach Err' % (o.describe()[:100], cn.split('::')[-1]))
+    ctx.ob('RANGE', 'no-saturating-conversion-of-values', sat == 0, None, '%d conversion(s) of a serialized value fall back to a default instead of Err' % sat, nontrivial=False)
 
 
 def enum_rule(ctx, m):
